@@ -3,7 +3,7 @@
 From AS Require Import Base Effects.
 From AS.Model Require Import Sgr Tokenizer Table Ops Render Scrub Parse StrOps FormatSpec Exec.
 From AS.Proofs Require Import TableProofs SliceProofs PadProofs ApplyProofs.
-From AS.Proofs Require RemoveProofs.
+From AS.Proofs Require RemoveProofs ConcatProofs.
 
 (* ====================================================================== *)
 (* 0. The invariant                                                        *)
@@ -884,4 +884,693 @@ Example case_shorter_not_WFv : ~ WFv (mkA [97%N] (tbl case_src)).
 Proof.
   intros (_ & Hk & _). specialize (Hk (2, mkP [] [mkS 0 [49%N]])). cbn in Hk.
   assert (2 <= 1) by (apply Hk; right; now left). lia.
+Qed.
+
+(* what Python's str case methods can do is lengthen the text (one code point may map to several:
+   "ß".upper() = "SS"); they never shorten it.  A longer text keeps the invariant as well. *)
+Theorem case_WFv_ge a t : WFv a -> length (base a) <= length t -> WFv (mkA t (tbl a)).
+Proof. intros W E. apply (WFv_longer (base a)); [destruct a; exact W|auto]. Qed.
+Example case_longer_WFv : WFv (mkA [83%N; 83%N; 65%N] (tbl case_src)).
+Proof. apply case_WFv_ge; [apply case_src_WFv|cbn; lia]. Qed.
+
+Theorem pad_good f n s which width fill ext :
+  good f n s ->
+  good f n (if (which =? 0)%Z then ljust s width fill ext
+            else if (which =? 1)%Z then rjust s width fill ext else center s width fill ext).
+Proof.
+  intros G. destruct (which =? 0)%Z; [|destruct (which =? 1)%Z]; eapply good_sub; eauto.
+  - apply ljust_WFv, G. - apply ljust_occ.
+  - apply rjust_WFv, G. - apply rjust_occ.
+  - apply center_WFv, G. - apply center_occ.
+Qed.
+Theorem assign_good f n s t : good f n s -> good f n (assign s t).
+Proof. intros G. eapply good_sub; eauto; [apply assign_WFv, G|apply assign_occ, G]. Qed.
+Theorem case_good f n a t : good f n a -> length (base a) <= length t -> good f n (mkA t (tbl a)).
+Proof. intros G H. eapply good_sub; eauto; [apply case_WFv_ge; auto; apply G|apply sub_occ_refl]. Qed.
+
+(* ====================================================================== *)
+(* 7. Concatenation                                                        *)
+(* ====================================================================== *)
+Lemma WFv_concat s : WFv s <-> ConcatProofs.WF s.
+Proof. reflexivity. Qed.
+Lemma occ_occurs x t : occ x t <-> ConcatProofs.occurs x t.
+Proof.
+  unfold occ, ConcatProofs.occurs. split; intros (kp & H1 & H2); exists kp; split; auto.
+  - now apply in_app_or. - now apply in_or_app.
+Qed.
+Lemma coherent_concat f t : coherent f t -> ConcatProofs.coherent t.
+Proof.
+  intros C x y Hx Hy E. apply occ_occurs in Hx, Hy. rewrite coherent_occ in C.
+  rewrite (C x Hx), (C y Hy). now rewrite E.
+Qed.
+
+Theorem iadd_WFv f a b c : WFv a -> WFv b -> coherent f (tbl a) -> iadd a b = OK c -> WFv c.
+Proof. intros Wa Wb C E. apply (ConcatProofs.iadd_WF a b Wa Wb c); auto. eapply coherent_concat; eauto. Qed.
+Theorem iadd_total a b : WFv a -> WFv b -> exists c, iadd a b = OK c.
+Proof. intros Wa Wb. exact (ConcatProofs.iadd_ok a b Wa Wb). Qed.
+Lemma iadd_occ a b c x : iadd a b = OK c -> occ x (tbl c) -> occ x (tbl a) \/ occ x (tbl b).
+Proof. intros E H. apply occ_occurs in H. apply (ConcatProofs.iadd_occurs a b c E) in H. now rewrite !occ_occurs. Qed.
+
+Theorem iadd_good f n a b c : good f n a -> good f n b -> iadd a b = OK c -> good f n c.
+Proof.
+  intros (Wa & Ba & Ca) (Wb & Bb & Cb) E. split; [exact (iadd_WFv f a b c Wa Wb Ca E)|]. split.
+  - apply ids_below_occ. intros x Hx. apply (iadd_occ a b c x E) in Hx as [Hx|Hx];
+      [apply ids_below_occ with (x := x) in Ba|apply ids_below_occ with (x := x) in Bb]; auto.
+  - apply coherent_occ. intros x Hx. apply (iadd_occ a b c x E) in Hx as [Hx|Hx];
+      [apply coherent_occ with (x := x) in Ca|apply coherent_occ with (x := x) in Cb]; auto.
+Qed.
+
+Theorem join_from_good f n : forall l acc c, good f n acc -> Forall (good f n) l -> join_from acc l = OK c -> good f n c.
+Proof.
+  induction l as [|x l IH]; intros acc c Ga Gl E; cbn [join_from] in E.
+  - inversion E; subst. exact Ga.
+  - inversion Gl; subst. destruct (iadd acc x) as [acc'|e] eqn:E1; cbn [bind] in E; [|discriminate].
+    apply (IH acc' c); auto. exact (iadd_good f n acc x acc' Ga H1 E1).
+Qed.
+Theorem join_astr_good f n l c : Forall (good f n) l -> join_astr l = OK c -> good f n c.
+Proof.
+  destruct l as [|x l]; cbn [join_astr]; intros G E.
+  - inversion E; subst. apply good_empty.
+  - inversion G; subst. exact (join_from_good f n l x c H1 H2 E).
+Qed.
+
+(* ====================================================================== *)
+(* 8. Operations that allocate identities: parse, simplify, construct,     *)
+(*    do_apply, do_remove                                                  *)
+(* ====================================================================== *)
+(* the result (value, next identity) of an allocating operation started at [nid] under [f] *)
+Definition alloc (f : nat -> str) (nid : nat) (a : astr) (nid' : nat) : Prop :=
+  exists f', ext nid f f' /\ nid <= nid' /\ good f' nid' a.
+
+Lemma alloc_refl f nid a : good f nid a -> alloc f nid a nid.
+Proof. intros G. exists f. split; [apply ext_refl|]. split; [lia|exact G]. Qed.
+Lemma alloc_trans f nid n1 a2 n2 :
+  (exists f1, ext nid f f1 /\ nid <= n1 /\ alloc f1 n1 a2 n2) -> alloc f nid a2 n2.
+Proof.
+  intros (f1 & E1 & L1 & f2 & E2 & L2 & G). exists f2. split; [eapply ext_trans; eauto|]. split; [lia|exact G].
+Qed.
+
+Definition ids_ge (n : nat) (t : fmts) : Prop := forall x, occ x t -> n <= sid x.
+
+Lemma apply_fresh_alloc f nid a texts st en top :
+  good f nid a -> alloc f nid (apply_fmt a (fst (fresh texts nid)) st en top) (nid + length texts).
+Proof.
+  intros G. exists (upd f nid texts). split; [apply ext_upd|]. split; [lia|]. now apply apply_fresh_good.
+Qed.
+Lemma apply_fresh_ge m nid a texts st en top : ssorted (tbl a) -> m <= nid ->
+  ids_ge m (tbl a) -> ids_ge m (tbl (apply_fmt a (fst (fresh texts nid)) st en top)).
+Proof.
+  intros Hs L H x Hx. apply apply_fmt_occ in Hx as [Hx|Hx]; auto. apply fresh_range in Hx. lia.
+Qed.
+
+Lemma parse_step_alloc f s cur key body nid : good f nid s ->
+  alloc f nid (fst (fst (parse_step s cur key body nid))) (snd (parse_step s cur key body nid)).
+Proof.
+  intros G. unfold parse_step. destruct (pgs_str body false) as [texts|e]; [|now apply alloc_refl].
+  destruct (fold_left _ _ _) as [to_rem to_app].
+  set (rmv := to_rem ++ _). set (nid1 := nid + length texts).
+  set (s1 := if is_nil rmv then s else remove_fmt s (Some rmv) (Some (Z.of_nat key)) None).
+  assert (G1 : good f nid1 s1).
+  { apply (good_mono f f nid nid1); [unfold nid1; lia|apply ext_refl|].
+    unfold s1. destruct (is_nil rmv); auto using remove_fmt_good. }
+  destruct (is_nil to_app) eqn:Ea; cbn [fst snd].
+  - exists f. split; [apply ext_refl|]. split; [unfold nid1; lia|exact G1].
+  - destruct (fresh to_app nid1) as [news nid2] eqn:Ef. cbn [fst snd].
+    assert (En : news = fst (fresh to_app nid1)) by now rewrite Ef.
+    assert (E2 : nid2 = nid1 + length to_app) by (pose proof (fresh_snd to_app nid1) as Q; now rewrite Ef in Q).
+    subst news nid2. apply (alloc_trans f nid nid1). exists f. split; [apply ext_refl|]. split; [unfold nid1; lia|].
+    now apply apply_fresh_alloc.
+Qed.
+
+Lemma parse_step_ge m s cur key body nid : WFv s -> m <= nid -> ids_ge m (tbl s) ->
+  ids_ge m (tbl (fst (fst (parse_step s cur key body nid)))).
+Proof.
+  intros W L H. unfold parse_step. destruct (pgs_str body false) as [texts|e]; [|exact H].
+  destruct (fold_left _ _ _) as [to_rem to_app].
+  set (rmv := to_rem ++ _). set (nid1 := nid + length texts).
+  set (s1 := if is_nil rmv then s else remove_fmt s (Some rmv) (Some (Z.of_nat key)) None).
+  assert (W1 : WFv s1) by (unfold s1; destruct (is_nil rmv); auto using remove_fmt_WFv).
+  assert (H1 : ids_ge m (tbl s1)).
+  { unfold s1. destruct (is_nil rmv); auto. intros x Hx. apply H. now apply remove_fmt_occ in Hx. }
+  destruct (is_nil to_app) eqn:Ea; cbn [fst snd]; [exact H1|].
+  destruct (fresh to_app nid1) as [news nid2] eqn:Ef. cbn [fst snd].
+  assert (En : news = fst (fresh to_app nid1)) by now rewrite Ef. subst news.
+  apply apply_fresh_ge; auto; [apply W1|unfold nid1; lia].
+Qed.
+
+Definition parse_fold (text : str) (seqs : list (nat * cseq)) (init : astr * dict vset * nat) :=
+  fold_left (fun '(s, cur, nid) kq =>
+               if length text <=? fst kq then (s, cur, nid)
+               else parse_step s cur (fst kq) (cs_body (snd kq)) nid) seqs init.
+
+Lemma parse_unfold w nid :
+  parse w nid =
+  let toks := tokenize false (Some [CH_m]) w in
+  let text := unformatted toks in
+  let r := parse_fold text (flat_sequences (sequences toks)) (mkA text [], [], nid) in
+  (fst (fst r), snd r).
+Proof.
+  unfold parse, parse_fold. cbv zeta. destruct (fold_left _ _ _) as [[s c] n]. reflexivity.
+Qed.
+
+Lemma parse_fold_alloc text seqs : forall s cur nid f, good f nid s ->
+  alloc f nid (fst (fst (parse_fold text seqs (s, cur, nid)))) (snd (parse_fold text seqs (s, cur, nid))).
+Proof.
+  induction seqs as [|kq seqs IH]; intros s cur nid f G; [now apply alloc_refl|].
+  unfold parse_fold. cbn [fold_left]. fold (parse_fold text seqs).
+  destruct (length text <=? fst kq); [now apply IH|].
+  pose proof (parse_step_alloc f s cur (fst kq) (cs_body (snd kq)) nid G) as (f1 & E1 & L1 & G1).
+  destruct (parse_step s cur (fst kq) (cs_body (snd kq)) nid) as [[s' cur'] nid']. cbn [fst snd] in *.
+  apply (alloc_trans f nid nid'). exists f1. split; [exact E1|]. split; [exact L1|]. now apply IH.
+Qed.
+
+Lemma parse_fold_ge m text seqs : forall s cur nid f, good f nid s -> m <= nid -> ids_ge m (tbl s) ->
+  ids_ge m (tbl (fst (fst (parse_fold text seqs (s, cur, nid))))).
+Proof.
+  induction seqs as [|kq seqs IH]; intros s cur nid f G L H; [exact H|].
+  unfold parse_fold. cbn [fold_left]. fold (parse_fold text seqs).
+  destruct (length text <=? fst kq); [now apply (IH s cur nid f)|].
+  pose proof (parse_step_alloc f s cur (fst kq) (cs_body (snd kq)) nid G) as (f1 & E1 & L1 & G1).
+  pose proof (parse_step_ge m s cur (fst kq) (cs_body (snd kq)) nid (proj1 G) L H) as H1.
+  destruct (parse_step s cur (fst kq) (cs_body (snd kq)) nid) as [[s' cur'] nid']. cbn [fst snd] in *.
+  apply (IH s' cur' nid' f1); auto. lia.
+Qed.
+
+(* parse: the result is well formed, its identities are exactly in [nid, nid'), old identities keep
+   their text *)
+Theorem parse_alloc f w nid : alloc f nid (fst (parse w nid)) (snd (parse w nid)).
+Proof. rewrite parse_unfold. cbv zeta. cbn [fst snd]. apply parse_fold_alloc, good_empty. Qed.
+
+Theorem parse_WFv w nid : WFv (fst (parse w nid)).
+Proof. destruct (parse_alloc (fun _ => []) w nid) as (f' & _ & _ & G). apply G. Qed.
+Theorem parse_mono w nid : nid <= snd (parse w nid).
+Proof. destruct (parse_alloc (fun _ => []) w nid) as (f' & _ & L & _). exact L. Qed.
+Theorem parse_ids w nid : forall kp x, In kp (tbl (fst (parse w nid))) -> In x (padd (snd kp) ++ prem (snd kp)) ->
+  nid <= sid x < snd (parse w nid).
+Proof.
+  intros kp x H1 H2. split.
+  - assert (H : ids_ge nid (tbl (fst (parse w nid)))).
+    { rewrite parse_unfold. cbv zeta. cbn [fst snd].
+      apply (parse_fold_ge nid _ _ _ _ nid (fun _ => [])); [apply good_empty|lia|].
+      intros y Hy. now apply occ_nil in Hy. }
+    apply H. exists kp. auto.
+  - destruct (parse_alloc (fun _ => []) w nid) as (f' & _ & _ & (_ & B & _)). eapply B; eauto.
+Qed.
+
+Theorem simplify_alloc f s nid : alloc f nid (fst (simplify s nid)) (snd (simplify s nid)).
+Proof. unfold simplify. apply parse_alloc. Qed.
+Theorem simplify_WFv s nid : WFv (fst (simplify s nid)).
+Proof. unfold simplify. apply parse_WFv. Qed.
+
+Theorem do_apply_alloc f a form st en top nid a' nid' :
+  good f nid a -> do_apply a form st en top nid = OK (a', nid') -> alloc f nid a' nid'.
+Proof.
+  intros G. unfold do_apply. destruct (_ || _).
+  - intros E; inversion E; subst. now apply alloc_refl.
+  - destruct (scrub form) as [texts|e]; cbn [bind]; [|discriminate].
+    destruct (fresh texts nid) as [news n2] eqn:Ef. intros E; inversion E; subst.
+    assert (En : news = fst (fresh texts nid)) by now rewrite Ef.
+    assert (E2 : nid' = nid + length texts) by (pose proof (fresh_snd texts nid) as Q; now rewrite Ef in Q).
+    subst. now apply apply_fresh_alloc.
+Qed.
+
+Theorem do_remove_good f n a form st en a' : good f n a -> do_remove a form st en = OK a' -> good f n a'.
+Proof.
+  intros G. unfold do_remove. destruct (_ || _).
+  - intros E; inversion E; subst. exact G.
+  - destruct form as [fm|].
+    + destruct (scrub fm) as [texts|e]; cbn [bind]; [|discriminate]. intros E; inversion E; subst.
+      now apply remove_fmt_good.
+    + intros E; inversion E; subst. now apply remove_fmt_good.
+Qed.
+
+Theorem construct_alloc f text forms nid a' nid' : construct text forms nid = OK (a', nid') -> alloc f nid a' nid'.
+Proof.
+  unfold construct. pose proof (parse_alloc f text nid) as (f1 & E1 & L1 & G1).
+  destruct (parse text nid) as [a n1]. cbn [fst snd] in *. destruct (is_nil forms).
+  - intros E; inversion E; subst. exists f1. auto.
+  - intros E. apply (alloc_trans f nid n1). exists f1. split; [exact E1|]. split; [exact L1|].
+    eapply do_apply_alloc; eauto.
+Qed.
+
+(* ====================================================================== *)
+(* 9. The str-like methods built from slices and concatenation             *)
+(* ====================================================================== *)
+Theorem strip_good f n s chars dl dr : good f n s -> good f n (strip s chars dl dr).
+Proof. intros G. unfold strip. destruct (strip_bounds _ _ _ _) as [l r]. now apply getitem_slice_good. Qed.
+
+Theorem partition_at_good f n s idx seplen : good f n s ->
+  let '(x, y, z) := partition_at s idx seplen in good f n x /\ good f n y /\ good f n z.
+Proof.
+  intros G. unfold partition_at. destruct idx as [i|].
+  - split; [|split]; apply getitem_slice_good; exact G.
+  - split; [exact G|split; apply good_empty].
+Qed.
+Theorem partition_good f n s sep : good f n s ->
+  let '(x, y, z) := partition s sep in good f n x /\ good f n y /\ good f n z.
+Proof. intros G. unfold partition. now apply partition_at_good. Qed.
+Theorem rpartition_good f n s sep : good f n s ->
+  let '(x, y, z) := rpartition s sep in good f n x /\ good f n y /\ good f n z.
+Proof. intros G. unfold rpartition. now apply partition_at_good. Qed.
+
+Theorem removeprefix_good f n s p : good f n s -> good f n (removeprefix s p).
+Proof. intros G. unfold removeprefix. destruct (starts_with _ _); auto using getitem_slice_good. Qed.
+Theorem removesuffix_good f n s p : good f n s -> good f n (removesuffix s p).
+Proof. intros G. unfold removesuffix. destruct (_ || _); auto using getitem_slice_good. Qed.
+
+Lemma slices_cumulative_good f n s seplen : good f n s -> forall pieces idx,
+  Forall (good f n) (slices_cumulative s pieces seplen idx).
+Proof.
+  intros G. induction pieces as [|p r IH]; intros idx; cbn [slices_cumulative]; constructor; auto using getitem_slice_good.
+Qed.
+Theorem split_sep_good f n s sep m right l : good f n s -> split_sep s sep m right = OK l -> Forall (good f n) l.
+Proof.
+  intros G. unfold split_sep. destruct (is_nil sep); [discriminate|]. intros E; inversion E; subst.
+  now apply slices_cumulative_good.
+Qed.
+Theorem slices_by_find_good f n s : good f n s -> forall pieces idx, Forall (good f n) (slices_by_find s pieces idx).
+Proof.
+  intros G. induction pieces as [|p r IH]; intros idx; cbn [slices_by_find]; [constructor|].
+  destruct (find_from _ _ _); constructor; auto using getitem_slice_good.
+Qed.
+Theorem iterate_good f n s : good f n s -> Forall (good f n) (iterate s).
+Proof.
+  intros G. unfold iterate. apply Forall_forall. intros r Hr. apply in_map_iff in Hr as (i & <- & Hi).
+  apply in_seq in Hi. apply slice_core_good; auto. lia.
+Qed.
+Theorem getitem_int_good f n s k r : good f n s -> getitem_int s k = OK r -> good f n r.
+Proof.
+  intros G E. eapply good_sub; eauto; [eapply getitem_int_WFv; eauto; apply G|eapply getitem_int_occ; eauto; apply G].
+Qed.
+
+(* replace *)
+Lemma repl_value_alloc f obj idx r nid : good f nid obj -> (forall a, r = RObj a -> good f nid a) ->
+  alloc f nid (fst (repl_value obj idx r nid)) (snd (repl_value obj idx r nid)).
+Proof.
+  intros G Hr. unfold repl_value. destruct r as [raw|a]; [|apply alloc_refl; auto].
+  pose proof (parse_alloc f raw nid) as (f1 & E1 & L1 & G1).
+  destruct (parse raw nid) as [p n1]. cbn [fst snd] in *.
+  destruct (is_nil _); cbn [fst snd]; [exists f1; auto|].
+  destruct (fresh _ n1) as [news n2] eqn:Ef. cbn [fst snd].
+  set (texts := map stxt (settings_at_nat obj idx)) in *.
+  assert (En : news = fst (fresh texts n1)) by now rewrite Ef.
+  assert (E2 : n2 = n1 + length texts) by (pose proof (fresh_snd texts n1) as Q; now rewrite Ef in Q).
+  subst. apply (alloc_trans f nid n1). exists f1. split; [exact E1|]. split; [exact L1|]. now apply apply_fresh_alloc.
+Qed.
+
+Lemma replace_loop_alloc old r : forall fuel f obj count idx nid a' nid',
+  good f nid obj -> (forall a, r = RObj a -> good f nid a) ->
+  replace_loop fuel obj old r count idx nid = OK (a', nid') -> alloc f nid a' nid'.
+Proof.
+  induction fuel as [|fuel IH]; intros f obj count idx nid a' nid' G Hr E; cbn [replace_loop] in E; [discriminate|].
+  destruct idx as [i|]; [|inversion E; subst; now apply alloc_refl].
+  destruct (count =? 0)%Z; [inversion E; subst; now apply alloc_refl|].
+  pose proof (repl_value_alloc f obj i r nid G Hr) as (f1 & E1 & L1 & G1).
+  destruct (repl_value obj i r nid) as [rv n1]. cbn [fst snd] in *.
+  assert (Go : good f1 n1 obj) by (eapply good_mono; eauto).
+  destruct (add (getitem_slice obj None (Some (Z.of_nat i))) rv) as [lft|e] eqn:A1; cbn [bind] in E; [|discriminate].
+  destruct (add lft (getitem_slice obj (Some (Z.of_nat (i + length old))) None)) as [obj'|e] eqn:A2; cbn [bind] in E; [|discriminate].
+  assert (Gl : good f1 n1 lft).
+  { unfold add in A1. eapply iadd_good; [|exact G1|exact A1]. now apply getitem_slice_good. }
+  assert (Go' : good f1 n1 obj').
+  { unfold add in A2. eapply iadd_good; [exact Gl| |exact A2]. now apply getitem_slice_good. }
+  apply (alloc_trans f nid n1). exists f1. split; [exact E1|]. split; [exact L1|].
+  eapply IH; [exact Go'| |exact E]. intros a Ha. eapply good_mono; eauto.
+Qed.
+
+Theorem replace_alloc f s old r count nid a' nid' :
+  good f nid s -> (forall a, r = RObj a -> good f nid a) ->
+  replace s old r count nid = OK (a', nid') -> alloc f nid a' nid'.
+Proof. intros G Hr. unfold replace. now apply replace_loop_alloc. Qed.
+
+(* ====================================================================== *)
+(* 10. Pools                                                               *)
+(* ====================================================================== *)
+From AS.Proofs Require Import ExecProofs.
+
+Definition PI (f : nat -> str) (p : pool) : Prop :=
+  Forall (fun o => good f (next_id p) (o_val o)) (objs p).
+
+Lemma pool_inv_PI p : pool_inv p <-> exists f, PI f p.
+Proof.
+  unfold pool_inv, PI, good. split.
+  - intros (H1 & H2 & f & H3). exists f. rewrite Forall_forall in *. intros o Ho. auto.
+  - intros (f & H). split; [|split; [|exists f]]; rewrite Forall_forall in *; intros o Ho; apply (H o Ho).
+Qed.
+
+Lemma o_val_mk_obj k a : o_val (mk_obj k a) = a.
+Proof. destruct k; reflexivity. Qed.
+
+Lemma PI_get f p i o : PI f p -> get p i = Some o -> good f (next_id p) (o_val o).
+Proof. intros H G. unfold PI in H. rewrite Forall_forall in H. apply H. eapply nth_error_In; eauto. Qed.
+
+Lemma PI_lift f f' p n' : PI f p -> ext (next_id p) f f' -> next_id p <= n' ->
+  Forall (fun o => good f' n' (o_val o)) (objs p).
+Proof. intros H E L. unfold PI in H. rewrite Forall_forall in *. intros o Ho. eapply good_mono; eauto. Qed.
+
+Lemma store_PI f q i o b a p' idxs e :
+  Forall (fun o => good f (next_id q) (o_val o)) (objs q) -> good f (next_id q) a ->
+  store q i o b a = OK (p', idxs, e) -> PI f p'.
+Proof.
+  intros H G E. unfold store, put, push in E.
+  assert (Hput : PI f (mkPool (set_nth i (mk_obj KString a) (objs q)) (next_id q))).
+  { unfold PI. cbn [objs next_id]. apply Forall_set_nth; auto. }
+  assert (Hpush : forall k, PI f (mkPool (objs q ++ [mk_obj k a]) (next_id q))).
+  { intros k. unfold PI. cbn [objs next_id]. apply Forall_app. split; auto. }
+  destruct (o_kind o); [destruct b|]; inversion E; subst; auto.
+Qed.
+
+Lemma store_many_PI f q k l p' idxs e :
+  Forall (fun o => good f (next_id q) (o_val o)) (objs q) -> Forall (good f (next_id q)) l ->
+  store_many q k l = OK (p', idxs, e) -> PI f p'.
+Proof.
+  intros H G E. unfold store_many in E. rewrite fold_push_spec in E. inversion E; subst.
+  unfold PI. cbn [objs next_id]. apply Forall_app. split; auto.
+  rewrite Forall_forall in *. intros o Ho. apply in_map_iff in Ho as (a & <- & Ha). rewrite o_val_mk_obj. auto.
+Qed.
+
+Lemma with_id_self p : with_id p (next_id p) = p.
+Proof. destruct p; reflexivity. Qed.
+
+(* storing the result of an allocating operation *)
+Lemma store_alloc_inv f p n' i o b a p' idxs e :
+  PI f p -> alloc f (next_id p) a n' -> store (with_id p n') i o b a = OK (p', idxs, e) -> pool_inv p'.
+Proof.
+  intros H (f' & E1 & L1 & G) E. apply pool_inv_PI. exists f'.
+  apply (store_PI f' (with_id p n') i o b a p' idxs e); [|exact G|exact E].
+  cbn [with_id objs next_id]. eapply PI_lift; eauto.
+Qed.
+Lemma store_good_inv f p i o b a p' idxs e :
+  PI f p -> good f (next_id p) a -> store p i o b a = OK (p', idxs, e) -> pool_inv p'.
+Proof. intros H G E. apply pool_inv_PI. exists f. eapply store_PI; eauto. Qed.
+Lemma store_many_inv f p k l p' idxs e :
+  PI f p -> Forall (good f (next_id p)) l -> store_many p k l = OK (p', idxs, e) -> pool_inv p'.
+Proof. intros H G E. apply pool_inv_PI. exists f. eapply store_many_PI; eauto. Qed.
+Lemma push_alloc_inv f p n' k a p' j :
+  PI f p -> alloc f (next_id p) a n' -> push (with_id p n') (mk_obj k a) = (p', j) -> pool_inv p'.
+Proof.
+  intros H (f' & E1 & L1 & G) E. apply pool_inv_PI. exists f'. unfold push in E. inversion E; subst.
+  unfold PI. cbn [with_id objs next_id]. apply Forall_app. split; [eapply PI_lift; eauto|].
+  constructor; auto.
+Qed.
+
+Lemma operand_alloc f0 f p x n b n' : PI f0 p -> ext (next_id p) f0 f -> next_id p <= n ->
+  operand p x n = OK (b, n') -> alloc f n b n'.
+Proof.
+  intros H E L Q. unfold operand in Q. destruct x as [i|l].
+  - destruct (get p (Z.to_nat i)) as [o|] eqn:G; [|discriminate]. inversion Q; subst.
+    apply alloc_refl. eapply good_mono; eauto. eapply PI_get; eauto.
+  - destruct l as [|s [|? ?]]; try discriminate. inversion Q as [Q1].
+    pose proof (parse_alloc f (str_of_sx s) n) as A. rewrite Q1 in A. exact A.
+Qed.
+
+Section Ops.
+Variables (p : pool) (args : list sx) (p' : pool) (idxs : list nat) (e : sx).
+Hypothesis Hinv : pool_inv p.
+
+Ltac start H := apply pool_inv_PI in Hinv; destruct Hinv as (f & HP); intros H.
+Ltac by_store H := eapply store_good_inv; [eassumption| |exact H].
+Ltac by_store_alloc H := eapply store_alloc_inv; [eassumption| |exact H].
+Ltac by_many H := eapply store_many_inv; [eassumption| |exact H].
+Ltac got := match goal with HP' : PI _ p, G : get p _ = Some ?o |- _ => pose proof (PI_get _ _ _ _ HP' G) end.
+
+Lemma op_0_inv : op_0 p (next_id p) args = OK (p', idxs, e) -> pool_inv p'.
+Proof.
+  start H. unfold op_0 in H. crack H. inversion H; subst.
+  eapply push_alloc_inv; eauto. eapply construct_alloc; eauto.
+Qed.
+
+Lemma op_1_inv : op_1 p (next_id p) args = OK (p', idxs, e) -> pool_inv p'.
+Proof.
+  start H. unfold op_1 in H. crack H; got; inversion H; subst; eapply push_alloc_inv; eauto.
+  match goal with Q : (if ?c then _ else _) = OK _ |- _ => destruct c end.
+  - match goal with Q : OK (o_val _, _) = OK _ |- _ => inversion Q; subst end. now apply alloc_refl.
+  - eapply do_apply_alloc; eauto.
+Qed.
+
+Lemma op_2_inv : op_2 p (next_id p) args = OK (p', idxs, e) -> pool_inv p'.
+Proof.
+  start H. unfold op_2 in H. crack H; got. by_store_alloc H. eapply do_apply_alloc; eauto.
+Qed.
+
+Lemma op_3_inv : op_3 p (next_id p) args = OK (p', idxs, e) -> pool_inv p'.
+Proof.
+  start H. unfold op_3 in H. crack H; got. by_store H. eapply do_remove_good; eauto.
+Qed.
+
+Lemma op_4_inv : op_4 p (next_id p) args = OK (p', idxs, e) -> pool_inv p'.
+Proof.
+  start H. unfold op_4 in H. crack H; got.
+  - by_store H. apply clear_fmt_good.
+  - by_store_alloc H.
+    match goal with Q : parse ?w ?n = (?a, ?n') |- _ =>
+      pose proof (parse_alloc f w n) as A; rewrite Q in A; exact A end.
+Qed.
+
+Lemma op_5_inv : op_5 p (next_id p) args = OK (p', idxs, e) -> pool_inv p'.
+Proof. start H. unfold op_5 in H. crack H; got. by_store H. now apply getitem_slice_good. Qed.
+
+Lemma op_6_inv : op_6 p (next_id p) args = OK (p', idxs, e) -> pool_inv p'.
+Proof. start H. unfold op_6 in H. crack H; got. by_store H. eapply getitem_int_good; eauto. Qed.
+
+Lemma op_7_inv : op_7 p (next_id p) args = OK (p', idxs, e) -> pool_inv p'.
+Proof. start H. unfold op_7 in H. crack H; got. by_store H. now apply getitem_slice_good. Qed.
+
+Lemma add_alloc f a x b n r : PI f p -> good f (next_id p) a ->
+  operand p x (next_id p) = OK (b, n) -> iadd a b = OK r -> alloc f (next_id p) r n.
+Proof.
+  intros HP Ga Ho Hr. destruct (operand_alloc f f p x (next_id p) b n HP (ext_refl _ _) (le_n _) Ho) as (f' & E1 & L1 & Gb).
+  exists f'. split; [exact E1|]. split; [exact L1|]. eapply iadd_good; [|exact Gb|exact Hr]. eapply good_mono; eauto.
+Qed.
+
+Lemma op_8_inv : op_8 p (next_id p) args = OK (p', idxs, e) -> pool_inv p'.
+Proof.
+  start H. unfold op_8 in H. crack H; got. by_store_alloc H. unfold add in *. eapply add_alloc; eauto.
+Qed.
+
+Lemma op_9_inv : op_9 p (next_id p) args = OK (p', idxs, e) -> pool_inv p'.
+Proof.
+  start H. unfold op_9 in H. crack H; got. by_store_alloc H. eapply add_alloc; eauto.
+Qed.
+End Ops.
+
+Lemma fold_err {A B} (F : res A -> B -> res A) (HF : forall e x, F (Err e) x = Err e) xs e :
+  fold_left F xs (Err e) = Err e.
+Proof. induction xs as [|x xs IH]; cbn [fold_left]; [reflexivity|]. now rewrite HF. Qed.
+
+Lemma operands_alloc f0 p : PI f0 p -> forall xs f l n vals n',
+  ext (next_id p) f0 f -> next_id p <= n -> Forall (good f n) l ->
+  fold_left (fun acc x => do (l, n) <- acc; do (v, n') <- operand p x n; OK (l ++ [v], n')) xs (OK (l, n)) = OK (vals, n') ->
+  exists f', ext (next_id p) f0 f' /\ n <= n' /\ Forall (good f' n') vals.
+Proof.
+  intros HP. induction xs as [|x xs IH]; intros f l n vals n' E L G Q; cbn [fold_left] in Q.
+  - inversion Q; subst. exists f. auto.
+  - cbn [bind] in Q. destruct (operand p x n) as [[v n1]|er] eqn:Ho; cbn [bind] in Q.
+    + destruct (operand_alloc f0 f p x n v n1 HP E L Ho) as (f1 & E1 & L1 & Gv).
+      destruct (IH f1 (l ++ [v]) n1 vals n') as (f2 & E2 & L2 & G2); auto.
+      * eapply ext_trans; eauto.
+      * lia.
+      * apply Forall_app. split; [|constructor; auto]. rewrite Forall_forall in *. intros a Ha.
+        eapply good_mono; eauto.
+      * exists f2. split; [exact E2|]. split; [lia|exact G2].
+    + rewrite fold_err in Q; [discriminate|]. intros; reflexivity.
+Qed.
+
+Lemma applies_alloc fm : forall spans f0 a n a' n', good f0 n a ->
+  fold_left (fun acc sp => do (a, n) <- acc;
+                           match sp with
+                           | L [A s; A e] => do_apply a (form_of_sx fm) (Some s) (Some e) true n
+                           | _ => Err TypeError end) spans (OK (a, n)) = OK (a', n') ->
+  alloc f0 n a' n'.
+Proof.
+  induction spans as [|sp spans IH]; intros f0 a n a' n' G Q; cbn [fold_left] in Q.
+  - inversion Q; subst. now apply alloc_refl.
+  - cbn [bind] in Q.
+    match type of Q with fold_left ?F _ ?X = _ => destruct X as [[a1 n1]|er] eqn:E1 end.
+    + assert (A1 : alloc f0 n a1 n1).
+      { destruct sp as [z|[|[s|?] [|[e0|?] [|? ?]]]]; try discriminate. eapply do_apply_alloc; eauto. }
+      destruct A1 as (f1 & X1 & L1 & G1). apply (alloc_trans f0 n n1). exists f1. split; [exact X1|]. split; [exact L1|].
+      eapply IH; eauto.
+    + rewrite fold_err in Q; [discriminate|]. intros; reflexivity.
+Qed.
+
+Lemma removes_good fm f n : forall spans a a', good f n a ->
+  fold_left (fun acc sp => do a <- acc;
+                           match sp with
+                           | L [A s; A e] => do_remove a (optform_of_sx fm) (Some s) (Some e)
+                           | _ => Err TypeError end) spans (OK a) = OK a' ->
+  good f n a'.
+Proof.
+  induction spans as [|sp spans IH]; intros a a' G Q; cbn [fold_left] in Q.
+  - inversion Q; subst. exact G.
+  - cbn [bind] in Q.
+    match type of Q with fold_left ?F _ ?X = _ => destruct X as [a1|er] eqn:E1 end.
+    + assert (G1 : good f n a1).
+      { destruct sp as [z|[|[s|?] [|[e0|?] [|? ?]]]]; try discriminate. eapply do_remove_good; eauto. }
+      eapply IH; eauto.
+    + rewrite fold_err in Q; [discriminate|]. intros; reflexivity.
+Qed.
+
+(* the one operation whose argument is not checked by the model: the new text of a case method *)
+Definition case_ok (p : pool) (args : list sx) : Prop :=
+  match args with
+  | [A i; t; ip] => match get p (Z.to_nat i) with
+                    | Some o => length (base (o_val o)) <= length (str_of_sx t)
+                    | None => True end
+  | _ => True
+  end.
+
+Section Ops2.
+Variables (p : pool) (args : list sx) (p' : pool) (idxs : list nat) (e : sx).
+Hypothesis Hinv : pool_inv p.
+
+Ltac start H := apply pool_inv_PI in Hinv; destruct Hinv as (f & HP); intros H.
+Ltac by_store H := eapply store_good_inv; [eassumption| |exact H].
+Ltac by_store_alloc H := eapply store_alloc_inv; [eassumption| |exact H].
+Ltac by_many H := eapply store_many_inv; [eassumption| |exact H].
+Ltac got := match goal with HP' : PI _ p, G : get p _ = Some ?o |- _ => pose proof (PI_get _ _ _ _ HP' G) end.
+
+Lemma op_10_inv : op_10 p (next_id p) args = OK (p', idxs, e) -> pool_inv p'.
+Proof.
+  start H. unfold op_10 in H. crack H. inversion H; subst.
+  match goal with Q : fold_left _ _ _ = OK (?vals, ?n') |- _ =>
+    destruct (operands_alloc f p HP _ f [] (next_id p) vals n' (ext_refl _ _) (le_n _) (Forall_nil _) Q)
+      as (f' & E1 & L1 & G1) end.
+  eapply push_alloc_inv; eauto. exists f'. split; [exact E1|]. split; [exact L1|].
+  eapply join_astr_good; eauto.
+Qed.
+
+Lemma op_11_inv : op_11 p (next_id p) args = OK (p', idxs, e) -> pool_inv p'.
+Proof. start H. unfold op_11 in H. crack H; got; by_store H; now apply pad_good. Qed.
+
+Lemma op_12_inv : op_12 p (next_id p) args = OK (p', idxs, e) -> pool_inv p'.
+Proof.
+  start H. unfold op_12 in H. crack H; got; by_store_alloc H;
+    (eapply replace_alloc; [eassumption| |eassumption]); intros aR HaR; subst.
+  match goal with Q : match ?s0 with A _ => _ | L _ => _ end = OK _ |- _ =>
+    destruct s0 as [j|[|? [|? ?]]]; try discriminate Q;
+    destruct (get p (Z.to_nat j)) as [oj|] eqn:Gj; [|discriminate Q]; inversion Q; subst end.
+  exact (PI_get _ _ _ _ HP Gj).
+Qed.
+
+Lemma op_13_inv : op_13 p (next_id p) args = OK (p', idxs, e) -> pool_inv p'.
+Proof. start H. unfold op_13 in H. crack H; got; by_store H; auto using strip_good. Qed.
+
+Lemma op_14_inv : op_14 p (next_id p) args = OK (p', idxs, e) -> pool_inv p'.
+Proof. start H. unfold op_14 in H. crack H; got; by_store H; auto using removeprefix_good. Qed.
+
+Lemma op_15_inv : op_15 p (next_id p) args = OK (p', idxs, e) -> pool_inv p'.
+Proof. start H. unfold op_15 in H. crack H; got; by_store H; auto using removesuffix_good. Qed.
+
+Lemma op_16_inv : op_16 p (next_id p) args = OK (p', idxs, e) -> pool_inv p'.
+Proof. start H. unfold op_16 in H. crack H; got; by_many H. eapply split_sep_good; eauto. Qed.
+
+Lemma op_17_inv : op_17 p (next_id p) args = OK (p', idxs, e) -> pool_inv p'.
+Proof. start H. unfold op_17 in H. crack H; got; by_many H. now apply slices_by_find_good. Qed.
+
+Lemma op_18_inv : op_18 p (next_id p) args = OK (p', idxs, e) -> pool_inv p'.
+Proof.
+  start H. unfold op_18 in H. crack H; got; by_many H.
+  match goal with Q : (if ?c then _ else _) _ ?sep = _ |- _ => destruct c end.
+  - match goal with Q : rpartition _ ?sep = _, G0 : good _ _ (o_val _) |- _ =>
+      pose proof (rpartition_good _ _ _ sep G0) as G; rewrite Q in G end.
+    destruct G as (G1 & G2 & G3). constructor; [assumption|constructor; [assumption|constructor; [assumption|constructor]]].
+  - match goal with Q : partition _ ?sep = _, G0 : good _ _ (o_val _) |- _ =>
+      pose proof (partition_good _ _ _ sep G0) as G; rewrite Q in G end.
+    destruct G as (G1 & G2 & G3). constructor; [assumption|constructor; [assumption|constructor; [assumption|constructor]]].
+Qed.
+
+Lemma op_19_inv : op_19 p (next_id p) args = OK (p', idxs, e) -> pool_inv p'.
+Proof. start H. unfold op_19 in H. crack H; got; by_store H; auto using assign_good. Qed.
+
+Lemma op_20_inv : case_ok p args -> op_20 p (next_id p) args = OK (p', idxs, e) -> pool_inv p'.
+Proof.
+  intros Hc. start H. unfold op_20 in H. crack H; got. by_store H. apply case_good; auto.
+  cbn [case_ok] in Hc. match goal with G : get p _ = Some _ |- _ => rewrite G in Hc end. exact Hc.
+Qed.
+
+Lemma op_21_inv : op_21 p (next_id p) args = OK (p', idxs, e) -> pool_inv p'.
+Proof.
+  start H. unfold op_21 in H. crack H; got. by_store_alloc H.
+  match goal with Q : simplify ?s ?n = (?a, ?n') |- _ =>
+    pose proof (simplify_alloc f s n) as A; rewrite Q in A; exact A end.
+Qed.
+
+Lemma op_22_inv : op_22 p (next_id p) args = OK (p', idxs, e) -> pool_inv p'.
+Proof. start H. unfold op_22 in H. crack H; got. by_store_alloc H. eapply applies_alloc; eauto. Qed.
+
+Lemma op_23_inv : op_23 p (next_id p) args = OK (p', idxs, e) -> pool_inv p'.
+Proof. start H. unfold op_23 in H. crack H; got. by_store H. eapply removes_good; eauto. Qed.
+
+Lemma op_24_inv : op_24 p (next_id p) args = OK (p', idxs, e) -> pool_inv p'.
+Proof. intros H. unfold op_24 in H. crack H. inversion H; subst. exact Hinv. Qed.
+Lemma op_25_inv : op_25 p (next_id p) args = OK (p', idxs, e) -> pool_inv p'.
+Proof. intros H. unfold op_25 in H. crack H. inversion H; subst. exact Hinv. Qed.
+Lemma op_26_inv : op_26 p (next_id p) args = OK (p', idxs, e) -> pool_inv p'.
+Proof. intros H. unfold op_26 in H. crack H; inversion H; subst; exact Hinv. Qed.
+Lemma op_27_inv : op_27 p (next_id p) args = OK (p', idxs, e) -> pool_inv p'.
+Proof. intros H. unfold op_27 in H. crack H; inversion H; subst; exact Hinv. Qed.
+
+Lemma op_28_inv : op_28 p (next_id p) args = OK (p', idxs, e) -> pool_inv p'.
+Proof. start H. unfold op_28 in H. crack H; got; by_many H. now apply iterate_good. Qed.
+End Ops2.
+
+(* ====================================================================== *)
+(* 11. exec and reachable pools                                            *)
+(* ====================================================================== *)
+Definition op_ok (p : pool) (op : sx) : Prop :=
+  match op with L (A c :: args) => c = 20%Z -> case_ok p args | _ => True end.
+
+Theorem exec_inv p op p' idxs extra :
+  pool_inv p -> op_ok p op -> exec p op = OK (p', idxs, extra) -> pool_inv p'.
+Proof.
+  intros Hinv Hok H. unfold exec in H.
+  destruct op as [z|l]; [discriminate H|].
+  destruct l as [|[c|l'] args]; try discriminate H. cbn [op_ok] in Hok.
+  repeat match type of H with
+         | (if (?c =? ?k)%Z then _ else _) = _ =>
+             destruct (Z.eqb_spec c k) as [->|_];
+             [ first [ apply op_0_inv in H | apply op_1_inv in H | apply op_2_inv in H
+                     | apply op_3_inv in H | apply op_4_inv in H | apply op_5_inv in H
+                     | apply op_6_inv in H | apply op_7_inv in H | apply op_8_inv in H
+                     | apply op_9_inv in H | apply op_10_inv in H | apply op_11_inv in H
+                     | apply op_12_inv in H | apply op_13_inv in H | apply op_14_inv in H
+                     | apply op_15_inv in H | apply op_16_inv in H | apply op_17_inv in H
+                     | apply op_18_inv in H | apply op_19_inv in H | apply op_20_inv in H
+                     | apply op_21_inv in H | apply op_22_inv in H | apply op_23_inv in H
+                     | apply op_24_inv in H | apply op_25_inv in H | apply op_26_inv in H
+                     | apply op_27_inv in H | apply op_28_inv in H ]; auto | ]
+         end.
+  discriminate H.
+Qed.
+
+(* every code but 20 needs no side condition *)
+Corollary exec_inv_not_case p op p' idxs extra :
+  pool_inv p -> code op <> 20%Z -> exec p op = OK (p', idxs, extra) -> pool_inv p'.
+Proof.
+  intros Hinv Hc. apply exec_inv; auto. destruct op as [z|[|[c|l'] args]]; cbn [op_ok code] in *; auto.
+  intros E. congruence.
+Qed.
+
+Lemma empty_pool_inv : pool_inv empty_pool.
+Proof. apply pool_inv_PI. exists (fun _ => []). constructor. Qed.
+
+(* histories in which every case-method step supplies a text at least as long as the old one
+   (which is all Python's str case methods can produce) *)
+Inductive reachable_ok : pool -> Prop :=
+| rk_empty : reachable_ok empty_pool
+| rk_step p op p' idxs extra :
+    reachable_ok p -> op_ok p op -> exec p op = OK (p', idxs, extra) -> reachable_ok p'.
+
+Theorem reachable_ok_inv p : reachable_ok p -> pool_inv p.
+Proof. induction 1 as [|p op p' idxs extra _ IH Hok H]; [apply empty_pool_inv|eapply exec_inv; eauto]. Qed.
+
+Lemma reachable_ok_reachable p : reachable_ok p -> reachable p.
+Proof. induction 1; [constructor|econstructor; eauto]. Qed.
+
+(* C09: no value of such a pool fails the library's self-check *)
+Corollary reachable_ok_self_check p : reachable_ok p ->
+  Forall (fun o => strict_ok (tbl (o_val o)) = true) (objs p).
+Proof.
+  intros H. apply reachable_ok_inv in H as (H & _). rewrite Forall_forall in *. intros o Ho. apply (H o Ho).
 Qed.
